@@ -166,7 +166,13 @@ fn parallel<F: Fn(usize, &mut Acc) + Sync>(n_items: usize, threads: usize, prop:
                     if i >= n_items {
                         break;
                     }
-                    f(i, &mut acc);
+                    // a panic of the subject inside a case (debug assertion, overflow, bounds check) is a
+                    // violation with the case in flight as replay, not a crash of the harness
+                    if guard(|| f(i, &mut acc)).is_err() {
+                        let hist = rt::fmt_hist(&rt::my_history());
+                        let kind = hist.last().map(|s| s.split('(').next().unwrap_or("").to_string()).unwrap_or_else(|| "case".into());
+                        acc.viol(&kind, "panic", format!("the subject panicked: {}", rt::last_panic()), hist);
+                    }
                 }
                 rt::hist_idle();
                 total.lock().unwrap().merge(acc);
